@@ -25,7 +25,10 @@ type Cfg struct {
 	Deck      []string `json:"deck"`
 	Personas  []int    `json:"personas,omitempty"`
 	Hostile   bool     `json:"hostile"`
-	Noise     bool     `json:"noise,omitempty"` // in-place reloads and unexpected operations are mixed into the history
+	Noise     bool     `json:"noise,omitempty"`              // in-place reloads and unexpected operations are mixed into the history
+	Burn      int      `json:"burn_count"`                   // Meta.BurnCount as configured (the engine always burns one card)
+	PosFlip   bool     `json:"positions_reversed,omitempty"` // list a seat's positions in reverse order
+	Reuse     int      `json:"reuse,omitempty"`              // 1: the game object played part of another hand before (ApplyOptions), 2: ... and got this hand via LoadState
 }
 
 func rnd63(r *rand.Rand, n int64) int64 {
@@ -75,6 +78,15 @@ func (c *Cfg) Positions(i int) []string {
 	return pos
 }
 
+// positions as handed to the engine (order within a seat's list is not significant)
+func (c *Cfg) positionsForEngine(i int) []string {
+	pos := c.Positions(i)
+	if c.PosFlip && len(pos) == 2 {
+		pos[0], pos[1] = pos[1], pos[0]
+	}
+	return pos
+}
+
 func (c *Cfg) SeatOf(pos string) int {
 	for i := 0; i < c.N; i++ {
 		if hasStr(c.Positions(i), pos) {
@@ -94,8 +106,9 @@ func (c *Cfg) Opts() *pokerface.GameOptions {
 	o.HoleCardsCount, o.RequiredHoleCardsCount = c.Hole, c.Req
 	o.Deck = baseDeck(c.Short)
 	for i := 0; i < c.N; i++ {
-		o.Players = append(o.Players, &pokerface.PlayerSetting{Bankroll: c.Banks[i], Positions: c.Positions(i)})
+		o.Players = append(o.Players, &pokerface.PlayerSetting{Bankroll: c.Banks[i], Positions: c.positionsForEngine(i)})
 	}
+	o.BurnCount = c.Burn
 	return o
 }
 
@@ -220,7 +233,8 @@ func genCfg(r *rand.Rand, g GenOpts) *Cfg {
 				c.Banks[i] = base + int64(r.Intn(2000)) - 1000
 			}
 		}
-		if r.Intn(3) == 0 {
+		switch r.Intn(4) {
+		case 0:
 			c.BB = base / 64
 			c.SB = c.BB / 2
 			if c.Ante > 0 {
@@ -229,8 +243,33 @@ func genCfg(r *rand.Rand, g GenOpts) *Cfg {
 			if c.Dl > 0 {
 				c.Dl = c.BB
 			}
+		case 1:
+			// forced bets that a float64 cannot hold exactly; stacks well above them
+			big := int64(1 << 53)
+			c.BB = 2*big + 2 + int64(r.Intn(3))
+			c.SB = big + 1
+			if c.Ante > 0 {
+				c.Ante = big + 1 + int64(r.Intn(4))
+			}
+			if c.Dl > 0 {
+				c.Dl = big + 3
+			}
+			for i := range c.Banks {
+				c.Banks[i] = 32*big + int64(r.Intn(1000))
+				if r.Intn(5) == 0 {
+					c.Banks[i] = c.Ante + c.BlindOwed(i) + int64(r.Intn(5)) - 2
+					if c.Banks[i] <= 0 {
+						c.Banks[i] = big + 1
+					}
+				}
+			}
 		}
 	}
+	c.Burn = 1
+	if r.Intn(6) == 0 {
+		c.Burn = r.Intn(4)
+	}
+	c.PosFlip = r.Intn(4) == 0
 	c.DealerIdx = 0
 	if r.Intn(3) == 0 {
 		c.DealerIdx = r.Intn(c.N)
@@ -330,8 +369,12 @@ func betAmount(r *rand.Rand, s *pokerface.GameState, cp *pokerface.PlayerState, 
 	return amt
 }
 
-func raiseAmount(r *rand.Rand, s *pokerface.GameState, cp *pokerface.PlayerState, persona int, hostile bool) int64 {
+func raiseAmount(r *rand.Rand, s *pokerface.GameState, cp *pokerface.PlayerState, persona int, hostile bool, lastInc int64) int64 {
 	cw, prs := s.Status.CurrentWager, s.Status.PreviousRaiseSize
+	if lastInc > 0 && r.Intn(4) == 0 {
+		// the boundary of the minimum-raise rule as the driver saw it (size of the last bet or raise actually made), not as the engine recorded it
+		return cw + lastInc + int64(r.Intn(3)) - 1
+	}
 	var amt int64
 	switch persona {
 	case personaMinRaiser:
@@ -380,7 +423,7 @@ func raiseAmount(r *rand.Rand, s *pokerface.GameState, cp *pokerface.PlayerState
 }
 
 // chooseAction picks an action for the seat to act, from what it was offered
-func chooseAction(r *rand.Rand, s *pokerface.GameState, c *Cfg) Op {
+func chooseAction(r *rand.Rand, s *pokerface.GameState, c *Cfg, lastInc int64) Op {
 	cp := s.Players[s.Status.CurrentPlayer]
 	aa := cp.AllowedActions
 	persona := personaRandom
@@ -468,7 +511,7 @@ func chooseAction(r *rand.Rand, s *pokerface.GameState, c *Cfg) Op {
 	case "bet":
 		op.Amt = betAmount(r, s, cp, persona, c.Hostile)
 	case "raise":
-		op.Amt = raiseAmount(r, s, cp, persona, c.Hostile)
+		op.Amt = raiseAmount(r, s, cp, persona, c.Hostile, lastInc)
 	}
 	return op
 }
